@@ -20,6 +20,7 @@ import numpy as np
 from .. import universe as U
 from .. import meshgen as G
 from .. import elements as EL
+from .. import meshops as MO
 from ..core import guarded, MachineryError
 from ..par import Pool
 from ..project import fx
@@ -138,28 +139,45 @@ def dof_components(basis, dim, vector):
     return comp
 
 
+def _mesh_of(rec):
+    """Mesh of a recipe: (p, t) [+ curved], an operation history (harness/meshops.py spec) or a graded tensor grid."""
+    if 'mesh' in rec:
+        return MO.build(rec['mesh'])
+    if 'graded' in rec:
+        g = rec['graded']
+        cls = U.mesh_class(rec['kind'])
+        axes = [np.array([0.] + [2. ** -k for k in ax]) for ax in g['axes']]
+        if rec['kind'] == 'line':
+            return cls(axes[0])
+        return cls.init_tensor(*axes)
+    return build_mesh(rec)
+
+
 def exec_solve(rec):
+    """One mesh, one element, one model problem with polynomial exact solution: the system is assembled ONCE and
+    then constrained and solved for every Dirichlet/Neumann split of rec['splits'] (same matrix object, same body
+    load vector) - one Solve event per split; every solve must reproduce the exact solution."""
     import skfem
-    from skfem import Basis, FacetBasis, BilinearForm, LinearForm, condense, enforce, solve
+    from skfem import Basis, FacetBasis, BilinearForm, LinearForm, condense, enforce, penalize, solve
     from skfem.helpers import dot
     from skfem.models.poisson import laplace, mass
     from skfem.models.elasticity import linear_elasticity
     name = rec['elem']
-    kind, deg, S, vector = SOLVE_ELEMS[name]
-    dim = len(rec['p'])
+    kind, deg, S0, vector = SOLVE_ELEMS[name]
     polys = [p_from_terms(T) for T in rec['poly']]
-    ev = {'a': 'Solve', 'problem': rec['problem'], 'bc': rec['bc'], 'dform': rec.get('dform', 'view'),
-          'method': rec.get('method', 'condense'), 'elem': name, 'dim': dim, 'S': S,
-          'poly': [p_terms(P, dim) for P in polys], 'loc': [], 'comp': [], 'x': [], 'err': '', 'ndir': 0}
+    dim = len(rec['poly'][0][0]['e'])
+    splits = rec['splits']
 
-    def run():
-        m = build_mesh(rec)
+    def base(sp):
+        return {'a': 'Solve', 'problem': rec['problem'], 'bc': sp['bc'], 'dform': sp.get('dform', 'view'),
+                'method': sp.get('method', 'condense'), 'elem': name, 'dim': dim, 'S': S0, 'S2': 0,
+                'poly': [p_terms(P, dim) for P in polys], 'loc': [], 'comp': [], 'x': [], 'err': '', 'ndir': 0,
+                'nth': 0}
+
+    def assemble():
+        m = _mesh_of(rec)
         e = EL.make(name)
         basis = Basis(m, e)
-        bf = m.boundary_facets()
-        dsel = np.array(rec['dir'], dtype=np.int64)                     # positions within boundary_facets()
-        Dfac = bf[dsel] if len(dsel) else np.array([], dtype=np.int64)
-        Nfac = np.setdiff1d(bf, Dfac)
         if rec['problem'] == 'elasticity':
             lam, mu = rec['lam'], rec['mu']
             A = linear_elasticity(float(lam), float(mu)).assemble(basis)
@@ -175,11 +193,9 @@ def exec_solve(rec):
                 for j in range(dim):
                     fi = p_add(fi, p_diff(sig[i][j], j), 1, -1)
                 f.append(fi)
-            b = LinearForm(lambda v, w: sum(p_eval(f[i], w.x) * v[i] for i in range(dim))).assemble(basis)
-            if len(Nfac):
-                fbN = FacetBasis(m, e, facets=Nfac)
-                b = b + LinearForm(lambda v, w: sum(p_eval(sig[i][j], w.x) * w.n[j] * v[i]
-                                                    for i in range(dim) for j in range(dim))).assemble(fbN)
+            b0 = LinearForm(lambda v, w: sum(p_eval(f[i], w.x) * v[i] for i in range(dim))).assemble(basis)
+            natural = LinearForm(lambda v, w: sum(p_eval(sig[i][j], w.x) * w.n[j] * v[i]
+                                                  for i in range(dim) for j in range(dim)))
             exact = lambda x: np.array([p_eval(P, x) for P in polys])
         else:
             P = polys[0]
@@ -191,67 +207,91 @@ def exec_solve(rec):
             for i in range(dim):
                 lap = p_add(lap, p_diff(p_diff(P, i), i))
             f = p_add(p_add({}, lap, 1, -1), P, 1, c)                      # f = -lap P + c P
-            b = LinearForm(lambda v, w: p_eval(f, w.x) * v).assemble(basis)
+            b0 = LinearForm(lambda v, w: p_eval(f, w.x) * v).assemble(basis)
             gradP = [p_diff(P, i) for i in range(dim)]
-            if len(Nfac) and kind != 'wedge':
-                fbN = FacetBasis(m, e, facets=Nfac)
-                b = b + LinearForm(lambda v, w: sum(p_eval(gradP[i], w.x) * w.n[i] for i in range(dim)) * v).assemble(fbN)
+            natural = LinearForm(lambda v, w: sum(p_eval(gradP[i], w.x) * w.n[i] for i in range(dim)) * v)
             exact = lambda x: p_eval(P, x)
-        if len(Dfac):
+        return m, e, basis, A, b0, natural, exact
+    sysm, err = guarded(assemble, 120)
+    if err:
+        ev = base(splits[0])
+        ev['err'] = err
+        return [ev]
+    m, e, basis, A, b0, natural, exact = sysm
+    # integer DOF locations: scale S = S0 * 2^j (operation histories halve edges), or 2^S2 on graded grids
+    S, S2 = S0, 0
+    if 'graded' in rec:
+        S2 = int(rec['graded']['bits'])
+        L = basis.doflocs * 2. ** S2
+    else:
+        for j in range(5):
+            L = basis.doflocs * (S0 * 2 ** j)
+            if np.abs(L - np.rint(L)).max() <= 1e-9:
+                S = S0 * 2 ** j
+                break
+    Li = np.rint(L)
+    lattice_ok = np.abs(L - Li).max() <= 1e-9 and np.abs(Li).max() < 2 ** 30
+    comp = [int(c) for c in dof_components(basis, dim, vector)]
+    bf = m.boundary_facets()
+    events = []
+    for nth, sp in enumerate(splits):
+        ev = base(sp)
+        ev.update(S=int(S), S2=int(S2), nth=nth + 1)
+
+        def run():
+            dsel = np.array(sp['dir'], dtype=np.int64) % max(1, len(bf))      # positions within boundary_facets()
+            dsel = np.unique(dsel) if len(sp['dir']) else dsel
+            Dfac = bf[dsel] if len(dsel) else np.array([], dtype=np.int64)
+            Nfac = np.setdiff1d(bf, Dfac)
+            b = b0.copy()
+            if len(Nfac) and kind != 'wedge':
+                b = b + natural.assemble(FacetBasis(m, e, facets=Nfac))
+            if not len(Dfac):
+                return np.asarray(solve(A, b)), 0
             D = basis.get_dofs(Dfac)
-            # the Dirichlet set is handed to condense / enforce in every accepted FORM: a DofsView, an index array,
-            # a dict of the DofsViews of several boundary parts (adjacent or overlapping: they share DOFs), or I=
-            form = rec.get('dform', 'view')
+            # the Dirichlet set is handed over in every accepted FORM: a DofsView, an index array, a dict of the
+            # DofsViews of several boundary parts (adjacent or overlapping: they share DOFs), or I=
+            form = sp.get('dform', 'view')
             kw = {'D': D}
             if form == 'array':
                 kw = {'D': D.flatten()}
             elif form in ('dict', 'dict_overlap'):
-                kw = {'D': {'part%d' % k: basis.get_dofs(bf[np.array(part, dtype=np.int64)])
-                            for k, part in enumerate(rec['dparts'])}}
+                kw = {'D': {'part%d' % k: basis.get_dofs(bf[np.unique(np.array(part, dtype=np.int64) % len(bf))])
+                            for k, part in enumerate(sp['dparts'])}}
             elif form == 'I':
                 kw = {'I': basis.complement_dofs(D)}
-            reduce_ = enforce if rec.get('method') == 'enforce' else condense
+            reduce_ = {'enforce': enforce, 'penalize': penalize}.get(sp.get('method'), condense)
             if kind == 'wedge':                                             # FacetBasis is not available for prisms:
                 xD = basis.zeros()                                          # nodal values of the data on the DOFs the
                 dd = D.flatten()                                            # library returned
                 xD[dd] = exact(basis.doflocs[:, dd])
             else:
                 xD = FacetBasis(m, e, facets=Dfac).project(exact)           # boundary projection of the data
-            x = solve(*reduce_(A, b, x=xD, **kw))
-            nd = len(D.flatten())
+            return np.asarray(solve(*reduce_(A, b, x=xD, **kw))), len(D.flatten())
+        out, err = guarded(run, 120)
+        if err:
+            ev['err'] = err
+        elif not lattice_ok:
+            ev['err'] = 'DofLocationsNotOnTheScaledLattice'
         else:
-            x = solve(A, b)
-            nd = 0
-        return basis, np.asarray(x), nd
-    out, err = guarded(run, 120)
-    if err:
-        ev['err'] = err
-        return [ev]
-    basis, x, nd = out
-    L = basis.doflocs * S
-    Li = np.rint(L)
-    if np.abs(L - Li).max() > 1e-9:
-        ev['err'] = 'DofLocationsNotOnTheScaledLattice'
-        return [ev]
-    xs = [fx(float(v)) for v in x]
-    if any(v is None for v in xs):
-        ev['err'] = 'NonFinite'
-        return [ev]
-    ev['loc'] = [[int(v) for v in col] for col in Li.T]
-    ev['comp'] = [int(c) for c in dof_components(basis, dim, vector)]
-    ev['x'] = xs
-    ev['ndir'] = int(nd)
-    return [ev]
+            x, nd = out
+            xs = [fx(float(v)) for v in x]
+            if any(v is None for v in xs):
+                ev['err'] = 'NonFinite'
+            else:
+                ev.update(loc=[[int(v) for v in col] for col in Li.T], comp=comp, x=xs, ndir=int(nd))
+        events.append(ev)
+    return events
 
 
 def exec_project(rec):
     from skfem import Basis, FacetBasis
     name = rec['elem']
     ev = {'a': 'Project', 'elem': name, 'region': rec['region'], 'y0': [], 'y1': [], 'I': [], 'edofs': [], 'cells': [],
-          'err': '', 'curved': 1 if rec.get('curved') else 0}
+          'err': '', 'curved': 1 if rec.get('curved') else 0, 'graded': 1 if 'graded' in rec else 0}
 
     def run():
-        m = build_mesh(rec)
+        m = _mesh_of(rec)
         e = EL.make(name)
         basis = Basis(m, e)
         y0 = np.random.default_rng(rec['yseed']).integers(-3, 4, basis.N).astype(float)
@@ -260,7 +300,7 @@ def exec_project(rec):
             y1 = basis.project(basis.interpolate(y0))
             I = np.arange(basis.N)
         elif rec['region'] == 'cells':
-            cells = np.array(rec['cells'], dtype=np.int64)
+            cells = np.unique(np.array(rec['cells'], dtype=np.int64) % m.t.shape[1])
             sub = basis.with_elements(cells)                                # basis restricted to the sub-domain
             y1 = sub.project(sub.interpolate(y0))
             I = np.unique(basis.element_dofs[:, cells])
@@ -292,7 +332,10 @@ def execute(rec):
 
 def scenario(sid, rec):
     tags = {'kind': rec['kind'], 'family': rec['family'], 'elem': rec['elem'], 'driver': rec['driver'],
-            'dform': rec.get('dform', ''), 'method': rec.get('method', ''),
+            'dform': rec['splits'][0].get('dform', '') if 'splits' in rec else '',
+            'method': rec['splits'][0].get('method', '') if 'splits' in rec else '',
+            'nsplits': len(rec.get('splits', [])), 'graded': 1 if 'graded' in rec else 0,
+            'history': 1 if 'mesh' in rec else 0,
             'problem': rec.get('problem', 'project'), 'region': rec.get('region', ''), 'curved': 1 if rec.get('curved') else 0}
     return {'id': sid, 'recipe': rec, 'tags': tags, 'events': execute(rec)}
 
@@ -398,15 +441,104 @@ def generate(tier, seed):
                         if form == 'dict_overlap':
                             for k in range(npart):
                                 dparts[k] = sorted(set(dparts[k]) | {dsel[int(rng.integers(0, len(dsel)))]})
-                    r = {'driver': 'solve', 'kind': kind, 'family': fam, 'elem': name, 'problem': prob, 'bc': mode,
-                         'dform': form if dsel else 'view', 'method': method, 'dparts': dparts,
-                         'p': np.asarray(p).astype(int).tolist(), 't': np.asarray(t).astype(int).tolist(),
-                         'poly': poly, 'dir': dsel}
+                    r = {'driver': 'solve', 'kind': kind, 'family': fam, 'elem': name, 'problem': prob,
+                         'p': np.asarray(p).astype(int).tolist(), 't': np.asarray(t).astype(int).tolist(), 'poly': poly,
+                         'splits': [{'bc': mode, 'dform': form if dsel else 'view', 'method': method, 'dparts': dparts,
+                                     'dir': dsel}]}
                     if prob == 'reaction':
                         r['c'] = int(rng.integers(1, 4))
                     if prob == 'elasticity':
                         r['lam'], r['mu'] = int(rng.integers(1, 3)), int(rng.integers(1, 3))
                     recs.append(r)
+    def problem_fields(r, prob):
+        if prob == 'reaction':
+            r['c'] = int(rng.integers(1, 4))
+        if prob == 'elasticity':
+            r['lam'], r['mu'] = int(rng.integers(1, 3)), int(rng.integers(1, 3))
+        return r
+
+    def rand_split(nb, k, wedge=False, allow_neumann=False):
+        """k-th split of a history: another Dirichlet facet set, another form, another reduction routine."""
+        forms = ['view', 'dict', 'array', 'I', 'dict_overlap']
+        methods = ['enforce', 'condense', 'enforce', 'penalize', 'enforce', 'condense']
+        if wedge:
+            dsel = list(range(nb))
+        else:
+            n = int(rng.integers(1, max(2, nb // 2 + 1)))
+            dsel = sorted(int(j) for j in rng.permutation(nb)[:n])
+        form = forms[(k + int(rng.integers(0, 5))) % 5]
+        dparts = []
+        if form in ('dict', 'dict_overlap'):
+            npart = min(len(dsel), 2)
+            assign = rng.integers(0, npart, len(dsel))
+            assign[:npart] = np.arange(npart)
+            dparts = [[dsel[j] for j in range(len(dsel)) if assign[j] == q] for q in range(npart)]
+            if form == 'dict_overlap':
+                dparts = [sorted(set(part) | {dsel[0]}) for part in dparts]
+        return {'bc': 'dirichlet' if wedge else 'mixed', 'dform': form, 'method': methods[k % len(methods)],
+                'dparts': dparts, 'dir': dsel}
+
+    # ---- end-to-end HISTORIES: the system is assembled once, then constrained and solved for several different
+    # Dirichlet/Neumann splits through enforce / condense / penalize; every solve must be exact, not only the first
+    for en, (name, (kind, deg, S, vector)) in enumerate(SOLVE_ELEMS.items()):
+        ms = [x for x in cache[(kind, 0)] if x[3] == 'affine']
+        for rep in range(3 if th else 1):
+            fam, p, t, cls = ms[(en + rep) % len(ms)]
+            dim = np.asarray(p).shape[0]
+            nb = _nbfacets(kind, p, t)
+            prob = 'elasticity' if vector else ['poisson', 'reaction'][(en + rep) % 2]
+            poly = [p_terms(p_rand(dim, deg, rng), dim) for _ in range(dim if vector else 1)]
+            r = {'driver': 'solve', 'kind': kind, 'family': fam + '-assembled-once', 'elem': name, 'problem': prob,
+                 'p': np.asarray(p).astype(int).tolist(), 't': np.asarray(t).astype(int).tolist(), 'poly': poly,
+                 'splits': [rand_split(nb, k, wedge=(kind == 'wedge')) for k in range(5 if th else 4)]}
+            recs.append(problem_fields(r, prob))
+    # ---- meshes reached through OPERATION HISTORIES (refined(marked) ... ; harness/meshops.py, the C03 families):
+    # exact solutions of the element's degree, i.e. >= 3 for the elements with several DOFs per edge
+    from .c03 import history_specs
+    hcache = {}
+    for en, (name, (kind, deg, S, vector)) in enumerate(SOLVE_ELEMS.items()):
+        if kind == 'wedge':
+            continue
+        if kind not in hcache:
+            hcache[kind] = [h for h in history_specs(kind, rng) if not h[2].get('unsorted')]
+        hs = hcache[kind]
+        sel = hs if th else [h for h in hs if 'adaptive' in h[0]][:2] + [hs[(en) % len(hs)]]
+        for fam, spec, flags in sel:
+            dim = {'line': 1, 'tri': 2, 'quad': 2}.get(kind, 3)
+            prob = 'elasticity' if vector else ['poisson', 'reaction'][int(rng.integers(0, 2))]
+            poly = [p_terms(p_rand(dim, deg, rng), dim) for _ in range(dim if vector else 1)]
+            r = {'driver': 'solve', 'kind': kind, 'family': fam, 'elem': name, 'problem': prob, 'mesh': spec, 'poly': poly,
+                 'splits': [{'bc': 'mixed', 'dform': 'view', 'method': 'condense', 'dparts': [],
+                             'dir': [int(j) for j in rng.integers(0, 1000, int(rng.integers(2, 6)))]}]}
+            recs.append(problem_fields(r, prob))
+    # ---- STRONGLY GRADED tensor grids (geometric spacing, cell measures spanning > 16 decades): degree-one patch
+    # tests (exact fixed-point oracle at the dyadic DOF locations) and projection identities, relative to the O(1)
+    # solution
+    GRADED = {'line': {'axes': [[56, 28, 1, 0]], 'bits': 0}, 'tri': {'axes': [[29, 14, 0]] * 2, 'bits': 29},
+              'quad': {'axes': [[29, 14, 0]] * 2, 'bits': 29}, 'tet': {'axes': [[20, 10, 0]] * 3, 'bits': 20},
+              'hex': {'axes': [[20, 10, 0]] * 3, 'bits': 20}}
+    for name, (kind, deg, S, vector) in SOLVE_ELEMS.items():
+        if deg != 1 or vector or kind in ('wedge', 'line'):
+            continue
+        g = GRADED[kind]
+        dim = len(g['axes'])
+        for prob in ('poisson', 'reaction'):
+            poly = [p_terms(p_rand(dim, 1, rng), dim)]
+            # essential data on the whole boundary: with natural data on layers 2^-29 thin the systems are too
+            # ill-conditioned for a sharp tolerance (observed 1e-8); with Dirichlet data the solves are exact to 1e-14
+            r = {'driver': 'solve', 'kind': kind, 'family': kind + '-graded', 'elem': name, 'problem': prob, 'graded': g,
+                 'poly': poly, 'splits': [{'bc': 'dirichlet', 'dform': ['view', 'array', 'I'][int(rng.integers(0, 3))],
+                                           'method': ['condense', 'enforce'][int(rng.integers(0, 2))],
+                                           'dparts': [], 'dir': list(range(400))}]}
+            recs.append(problem_fields(r, prob))
+    for name in PROJECT_ELEMS:
+        kind = EL.CATALOGUE[name]['kind']
+        if kind == 'wedge' or any(x in name for x in ('RT', 'N1', 'Morley')):
+            continue                        # DOFs that scale with the cell size (fluxes, circulations, normal derivatives)
+        base = {'driver': 'project', 'kind': kind, 'family': kind + '-graded', 'elem': name, 'graded': GRADED[kind]}
+        recs.append(dict(base, region='mesh', yseed=int(rng.integers(0, 2 ** 31))))
+        recs.append(dict(base, region='cells', cells=[int(j) for j in rng.integers(0, 1000, 5)],
+                         yseed=int(rng.integers(0, 2 ** 31))))
     # ---- projections
     for name in PROJECT_ELEMS:
         kind = EL.CATALOGUE[name]['kind']
